@@ -18,7 +18,11 @@ KIND = {"SYNC_LOCKED": 18, "SYNC_LOADED": 19, "SYNC_BEFORE_WRITE": 20,
 
 
 def _harness(fl):
-    return vf.build_harness(fl, "c10", xtp=True)
+    # parallelxjobcalc.cc is compiled unchanged; <libint2/initialize.h> comes from harness/stubs
+    return vf.build_harness(fl, "c10", xtp=True,
+                            sources=[os.path.join(vf.VERIF, "harness", "c10.cc"),
+                                     os.path.join(vf.REPO, "xtp/src/libxtp/parallelxjobcalc.cc")],
+                            flags="-I" + os.path.join(vf.VERIF, "harness", "stubs"))
 
 
 def prebuild():
@@ -721,7 +725,7 @@ def run(chk):
                          "pause_b_ran_through_while_a_held_section": passed,
                          "crash_offsets_tried": tried, "crash_points_hit": crashed})
     chk.extra["crash_offsets_exhaustive_for_listed_configs"] = exhaustive
-    chk.rule = ("histories of the real ProgObserver/Job code: (stress) P=1..6 processes x T=1..4 threads on one job file "
+    chk.rule = ("histories of the real ProgObserver/Job/ParallelXJobCalc code: (stress) P=1..6 processes x T=1..4 threads on one job file "
                 "(1..200 jobs, cache 1..8, maxjobs, failures, seeded delays inside the synchronisation); (pause) one process held "
                 "at a hook inside the critical section while another synchronises; (restart) second wave with host()/stat() "
                 "patterns; (crash) process killed after byte N of the job file / backup for every N (small configs) then "
@@ -730,6 +734,6 @@ def run(chk):
                 "distinct (scenario parameters / crash offset).")
     chk.assumptions = ["crash model = process kill at write() granularity with emulated partial writes; storage-level tearing is out of reach",
                        "recovery after a crash = copy the backup over a damaged job file, then restart with stat(ASSIGNED)",
-                       "the stub calculator replicates the 12-line worker loop of ParallelXJobCalc::JobOperator::Run (parallelxjobcalc.cc needs libint2)"]
+                       "the thread pool and worker loop are the real ParallelXJobCalc<std::vector<Job>>::Evaluate / JobOperator::Run (parallelxjobcalc.cc compiled unchanged; only libint2::initialize/finalize come from a stub header and EvalJob is the ledger-writing stub)"]
     chk.sanitizer = {"flavours": ["asan", "tsan"]}
     shutil.rmtree(work, ignore_errors=True)
